@@ -798,6 +798,16 @@ void World::corrupt_blob(const Step& s, int ti)
     const bool compressed = kind != 4;
     Bytes cell = pristine;
     unsigned oper = (unsigned)((uint64_t)arg(2) % 13);
+    // what the track looked like before the damage (if it was readable): once the pristine bytes are back the library
+    // must read it again, whatever a failed decode did to the decoder's own state in between
+    std::optional<dj::track_snapshot> snap_before;
+    bool modified_while_damaged = false;
+    if (ti >= 0 && (size_t)ti < tracks.size() && tracks[ti].h)
+    {
+        Outcome o = call(FaultSpec{}, [&] { snap_before = tracks[ti].h->snapshot(); });
+        if (o.threw)
+            snap_before.reset();
+    }
     if (oper == 12 && kind != 2)
         oper = 2;
     std::string what;
@@ -1044,6 +1054,7 @@ void World::corrupt_blob(const Step& s, int ti)
         probes.hit("purity_checked_on_damaged");
         if (r.chance(1, 3))
         {
+            modified_while_damaged = true;
             // read-modify-write on damaged data must be safe too
             rd("set_main_cue", [&] { t.set_main_cue(123.0); });
             rd("set_hot_cue_at", [&] { t.set_hot_cue_at(0, std::nullopt); });
@@ -1090,6 +1101,23 @@ void World::corrupt_blob(const Step& s, int ti)
         {
             std::string table = v2 ? "Track" : "PerformanceData";
             d.run("UPDATE " + table + " SET " + col + " = ? WHERE id = ?", {HDb::Bind::Blob(pristine), HDb::Bind::Int(id)});
+        }
+        d.close();
+        if (snap_before && ti >= 0 && (size_t)ti < tracks.size() && tracks[ti].h)
+        {
+            // the stored bytes are again exactly what the library (or the independent encoder) wrote: the codecs must
+            // decode them as before - a decoder that a failed decode left unusable breaks C03 / C02 for every later value
+            const std::string owner = foreign_tracks.count(id) ? "C02" : "C03";
+            std::optional<dj::track_snapshot> after;
+            Outcome o = call(FaultSpec{}, [&] { after = tracks[ti].h->snapshot(); });
+            if (o.threw)
+                report(owner, owner + "|restored-cell|" + fam() + "|unreadable",
+                       "track " + std::to_string(id) + " was readable, a stored blob was damaged and then put back byte for byte: snapshot() now throws " +
+                           o.exc + ": " + o.what);
+            else if (!modified_while_damaged && after && render_snapshot(*after) != render_snapshot(*snap_before))  // doubles by bit pattern (NaN)
+                report(owner, owner + "|restored-cell|" + fam() + "|differs",
+                       "track " + std::to_string(id) + ": a stored blob was damaged and then put back byte for byte, and snapshot() returns something else than before");
+            probes.hit("restored_cell_read_back");
         }
     }
     else
